@@ -23,6 +23,7 @@ import (
 	"encoding/json"
 	"fmt"
 	"math/big"
+	"sort"
 
 	"github.com/polynetwork/poly/common"
 	"github.com/polynetwork/poly/native"
@@ -206,7 +207,14 @@ func (this *RippleHandler) MultiSign(service *native.NativeService) error {
 		if err != nil {
 			return fmt.Errorf("MultiSign, types.DeserializeRawMultiSignTx error")
 		}
+		// the signer list goes into the event (and to the XRP ledger, which wants it sorted by account): never in map order.
+		// A key is hex(varbytes(account) ++ ...), so ascending keys = ascending accounts.
+		sigKeys := make([]string, 0, len(multisignInfo.SigMap))
 		for s := range multisignInfo.SigMap {
+			sigKeys = append(sigKeys, s)
+		}
+		sort.Strings(sigKeys)
+		for _, s := range sigKeys {
 			signerBytes, err := hex.DecodeString(s)
 			if err != nil {
 				return fmt.Errorf("MultiSign, hex.DecodeString signer bytes error")
